@@ -233,6 +233,12 @@ pub fn fix_fee(w: &Wallet, tx: &mut Transaction, inputs: &[WCoin], mult: u128, t
     true
 }
 
+/// eighths: how often identical coins (twins) are created and spent together; set per stream
+pub static TWINS: std::sync::atomic::AtomicU64 = std::sync::atomic::AtomicU64::new(2);
+fn twins() -> u64 {
+    TWINS.load(std::sync::atomic::Ordering::Relaxed)
+}
+
 pub struct Ctx<'a> {
     pub height: u64,
     pub network: NetID,
@@ -268,6 +274,18 @@ fn pick_inputs(r: &mut Rng, cx: &Ctx, extra: usize, want: Option<Denom>) -> Opti
             v.push(c);
         }
     }
+    // spend twins together when there are any
+    if r.chance(twins() + 2, 8) {
+        let twins: Vec<WCoin> = cx.coins.iter().filter(|c| v.iter().any(|x| x.cdh == c.cdh && x.id != c.id) && !v.iter().any(|x| x.id == c.id)).cloned().collect();
+        for t in twins.into_iter().take(2) {
+            if r.chance(1, 2) {
+                v.push(t);
+            } else {
+                let at = r.below(v.len() as u64 + 1) as usize;
+                v.insert(at, t);
+            }
+        }
+    }
     Some(v)
 }
 
@@ -276,6 +294,20 @@ fn split(r: &mut Rng, w: &mut Wallet, value: u128, denom: Denom, height: u64) ->
     let n = 1 + r.below(3) as u128;
     let mut v = vec![];
     let mut left = value;
+    // twins: identical coin data (same covenant, value, denomination) at one height, so that the
+    // only thing distinguishing the coins is their id and the position they are spent at
+    if r.chance(twins(), 8) && value >= 2 {
+        let a = w.rand_addr(r, height);
+        let k = 2 + r.below(2) as u128;
+        let part = value / k;
+        for _ in 0..k {
+            v.push(out(a, part, denom));
+        }
+        if value - part * k > 0 {
+            v.push(out(w.rand_addr(r, height), value - part * k, denom));
+        }
+        return v;
+    }
     for i in 0..n {
         let part = if i == n - 1 { left } else if left == 0 { 0 } else { r.u128() % (left + 1) };
         left -= part;
@@ -305,6 +337,16 @@ fn balance(r: &mut Rng, w: &mut Wallet, inputs: &[WCoin], mut outs: Vec<CoinData
         }
         let rest = have - placed;
         if d == Denom::Mel {
+            // sometimes twin outputs first (identical coin data, see `split`)
+            let mut rest = rest;
+            if r.chance(twins(), 8) && rest > 1000 {
+                let a = w.rand_addr(r, height);
+                let part = rest / 8;
+                for _ in 0..(2 + r.below(2)) {
+                    outs.push(out(a, part, d));
+                    rest -= part;
+                }
+            }
             // one dedicated change output so that the fee can be carved out of it
             let k = w.spec_addr(CovSpec::StdNew(r.below(w.keys.len() as u64) as usize));
             outs.push(out(k, rest, d));
@@ -708,14 +750,16 @@ pub fn mutate(r: &mut Rng, w: &Wallet, tx: &mut Transaction, inputs_known: &[WCo
             "no-covenants"
         }
         5 => {
-            if let Some(s) = tx.sigs.get_mut(0) {
+            // any position: a later input's signature matters as much as the first one's
+            let at = if tx.sigs.len() > 1 && r.chance(2, 3) { 1 + r.below(tx.sigs.len() as u64 - 1) as usize } else { 0 };
+            if let Some(s) = tx.sigs.get_mut(at) {
                 let mut v = s.to_vec();
                 if !v.is_empty() {
                     v[0] ^= 1;
                 }
                 *s = v.into();
             }
-            "flip-sig"
+            if at == 0 { "flip-sig" } else { "flip-later-sig" }
         }
         6 => {
             tx.sigs.reverse();
